@@ -125,7 +125,11 @@ Record rws := mkR {
 }.
 Definition rws0 : rws := mkR [] false 0 [] false [] 0 0 [] false.
 
-Record env := mkE { e_head : bool; e_bsz : Z; e_hop : list bytes }.
+(* e_open: the request did not carry END_STREAM (its body is still open when the response ends) *)
+(* e_perm: which iteration order Go's map range takes over the "Trailer:"-prefixed keys in promoteUndeclaredTrailers *)
+(* e_win / e_grant: the client's flow-control script (initial stream window, grant whenever it reaches 0) *)
+Record env := mkE { e_head : bool; e_bsz : Z; e_hop : list bytes; e_open : bool; e_perm : Z; e_win : Z; e_grant : Z }.
+Definition with_perm (n : Z) (e : env) : env := mkE (e_head e) (e_bsz e) (e_hop e) (e_open e) n (e_win e) (e_grant e).
 
 Definition write_header (e : env) (code : Z) (s : rws) : rws :=
   if wroteH s then s
@@ -144,15 +148,34 @@ Definition header_elements (v : bytes) : list bytes :=
 Definition declare_from_snapshot (snp : hmap) (tr : list bytes) : list bytes :=
   fold_left (fun tr v => fold_left declare_trailer (header_elements v) tr) (hget snp s_Trailer) tr.
 
-(* promoteUndeclaredTrailers (the entries are visited in list order; Go's map order is irrelevant when no two
-   "Trailer:" keys name the same trailer and no trailer name itself starts with "Trailer:") *)
-Definition promote (h : hmap) (tr : list bytes) : hmap * list bytes :=
+(* the n-th permutation of a list (n = 0: identity; n in [0, (length l)!) reaches every permutation) *)
+Fixpoint remove_nth {A} (n : nat) (l : list A) {struct l} : list A :=
+  match l, n with
+  | [], _ => []
+  | _ :: r, O => r
+  | x :: r, S n' => x :: remove_nth n' r
+  end.
+Fixpoint perm_go {A} (fuel : nat) (n : Z) (l : list A) {struct fuel} : list A :=
+  match fuel, l with
+  | S f, d :: _ =>
+    let len := Z.of_nat (length l) in
+    let i := Z.to_nat (n mod len) in
+    nth i l d :: perm_go f (n / len) (remove_nth i l)
+  | _, _ => []
+  end.
+Definition perm_nth {A} (n : Z) (l : list A) : list A := perm_go (length l) n l.
+
+(* promoteUndeclaredTrailers.  Go ranges over the handlerHeader map in an unspecified order; only the entries whose
+   key starts with "Trailer:" act, and their order matters only when two of them name the same trailer (the later one
+   wins).  The order is the parameter `perm`.  Not covered: a trailer name that itself starts with "Trailer:" (an
+   entry inserted during the range may or may not be visited). *)
+Definition promote (perm : Z) (h : hmap) (tr : list bytes) : hmap * list bytes :=
   let '(h', tr') :=
     fold_left (fun (acc : hmap * list bytes) (e : bytes * list bytes) =>
       let '(k, vv) := e in
       if is_prefix s_TrailerPrefix k then
         let tk := skipn 8 k in (hput (fst acc) (canon tk) vv, declare_trailer (snd acc) tk)
-      else acc) h (h, tr) in
+      else acc) (perm_nth perm (filter (fun e => is_prefix s_TrailerPrefix (fst e)) h)) (h, tr) in
   (h', match tr' with _ :: _ :: _ => sort_keys tr' | _ => tr' end).
 
 Definition status_field (st : Z) : list (bytes * bytes) := if st =? 0 then [] else [(s_status, dec_of_Z st)].
@@ -190,7 +213,7 @@ Definition first_headers (e : env) (done : bool) (p : bytes) (s : rws) : frame *
    stream with an empty DATA frame instead (fix: it used to write nothing, so END_STREAM was never sent). *)
 Definition body_frames (e : env) (done : bool) (p : bytes) (s1 : rws) : list frame * rws :=
   let lenp := blen p in
-  let '(h2, tr2) := if done then promote (hh s1) (trailers s1) else (hh s1, trailers s1) in
+  let '(h2, tr2) := if done then promote (e_perm e) (hh s1) (trailers s1) else (hh s1, trailers s1) in
   let s2 := mkR h2 (wroteH s1) (status s1) (snap s1) (sentH s1) tr2 (sentCL s1) (wroteB s1) (buf s1) (berr s1) in
   let has_tr := match tr2 with [] => false | _ => true end in
   let es := done && negb has_tr in
@@ -297,6 +320,36 @@ Definition run_handler (e : env) (ops : list hop_) : list frame * list Z * rws :
   (fr ++ fr', res, s').
 
 Definition frames_of (e : env) (ops : list hop_) : list frame := fst (fst (run_handler e ops)).
+
+(* ---------- the scheduler: DATA writes as they appear on the wire ----------
+   writesched.go takeFrom sends a queued DATA write in pieces of at most min(stream send window, maximum frame size
+   16384) bytes; every piece but the last is built with endStream = false, the last one carries the END_STREAM flag of
+   the write; a DATA write of zero bytes costs nothing and is sent as it is.  The scripted client starts with a stream
+   window of w bytes and, whenever the window it tracks reaches exactly 0, grants g more bytes (so the server is
+   always blocked when a grant arrives: the chunking is deterministic).  w > 0 and g > 0 keep the window positive
+   between pieces.  fuel = length p suffices (every step sends at least one byte); at fuel 0 nothing is left. *)
+Definition max_frame : Z := 16384.
+Definition after_take (g w n : Z) : Z := if w - n =? 0 then g else w - n.
+Fixpoint chunk_data (fuel : nat) (g w : Z) (es : bool) (p : bytes) {struct fuel} : list frame * Z :=
+  match fuel with
+  | O => ([FD es p], w)
+  | S f =>
+    match p with
+    | [] => ([FD es p], w)
+    | _ =>
+      let a := Z.min w max_frame in
+      if a <? blen p then
+        let '(r, w') := chunk_data f g (after_take g w a) es (skipn (Z.to_nat a) p) in
+        (FD false (firstn (Z.to_nat a) p) :: r, w')
+      else ([FD es p], after_take g w (blen p))
+    end
+  end.
+Fixpoint wire_frames (g w : Z) (fs : list frame) {struct fs} : list frame :=
+  match fs with
+  | [] => []
+  | FH e fl :: r => FH e fl :: wire_frames g w r
+  | FD e p :: r => let '(c, w') := chunk_data (length p) g w e p in c ++ wire_frames g w' r
+  end.
 
 (* ---------- specification side (used by prop_C38; written from the statement, not from writeChunk) ---------- *)
 (* RFC 7540 8.1.2.2 connection-specific header fields, lower case *)
